@@ -270,7 +270,12 @@ func (p *parser) parseObjectPropertyKey() (string, string) {
 			value = literal
 		} else {
 			// 11.1.5: a PropertyName is an IdentifierName, a string or a number.
-			p.errorUnexpectedToken(tkn)
+			// The offending token has been consumed: report it where it was.
+			if tkn == token.EOF {
+				p.errorUnexpectedToken(tkn)
+			} else {
+				p.error(idx, errUnexpectedToken, tkn.String())
+			}
 		}
 	}
 	return literal, value
